@@ -13,6 +13,18 @@ CHECKS = {
   text='Lean theorems: prefix lemma for all reader programs; for BQM v1/v2, QM and expression files every proper prefix raises or returns the original with < 64 padding bytes lost; guarded raw loaders and whole loaders never reach undefined behaviour for any bytes; every prefix of every generated file is loaded by the real code in forked children and its outcome class compared with the model; out-of-bounds reads are made observable by an unreadable guard page.',
   note='CQM/DQM bodies under the zip/npz contract (partial theorems); crash/hang freedom of the binary is observed on the explored prefixes only; corrupt (non-truncated) files are out of scope.',
   technique='Lean 4 reader-program model + prefix-stability proofs; every-prefix differential correspondence; electric fence (guard page); valgrind in thorough tier'),
+ 'C06': dict(
+  text='Lean theorems: an executable model `Sym.build` of the operator overloads (21 node kinds incl. in-place forms, CQM views, aliased operands, quicksum) with `build_eval` proved by structural induction: the built model evaluates to the arithmetic of the tree at every in-domain sample (x*x=x binary, s*s=1 spin, true square integer/real); promotion keeps type and bounds; conflicts are rejected; operands of non-in-place operators are unchanged (frame theorem on a store model). Every sub-tree of random trees is built with the real operators and compared coefficient-wise with the model and energy-wise with exact arithmetic every run.',
+  note='float rounding is outside the model (dyadic inputs); dtype only selects code paths; immutability is proved for the modelled operator programs and observed on the real objects; variable-free BQM operands are not generated yet.',
+  technique='Lean 4 structural-induction proof over an operator model + differential correspondence of every sub-tree'),
+ 'C07': dict(
+  text='Lean theorems: the gray-code loop enumerates all 2^n rows exactly once; the DQM/CQM case products enumerate the domain product (one-hot blocks for discrete constraints) exactly once; lowest (feasible) row is a global optimum; energy plumbing of sample/sample_ising/sample_qubo, polymorph_response columns and energies, PolyScale rescaling, PolyFixedVariable fixing, Truncate are energy/row preserving. Every sampler x composite stack x entry point x option grid is run on random small problems and each row checked against the submitted problem computed independently.',
+  note='rows of stochastic samplers (Random, SimulatedAnnealing) are validated, not proved; make_quadratic belongs to C15; child samplers enter the composable theorems as parameters with a contract.',
+  technique='Lean 4 enumeration/permutation proofs (Nodup + membership) and energy-plumbing lemmas + differential correspondence of enumeration order and post-processing'),
+ 'C12': dict(
+  text='Lean theorems: the LP writer as a token emitter and a specification reader for exactly the emitted sub-grammar: token-level round trip (variables with types and bounds, constraint labels, senses, objective evaluation, each constraint activity lhs(x)-rhs; rhs and lhs individually when the lhs constant is 0), line wrapping never splits a token, SPIN/soft/invalid labels are refused before any output; label rules regenerated from lp.py. Model text is compared byte for byte with lp.dumps and the model reading with lp.loads (real C++ parser) on random CQMs every run.',
+  note='the C++ LP parser and the lexical layer (number formatting, tokenisation) are covered by the correspondence only; the preserved quantity for a constraint with a constant on its lhs is the activity lhs-rhs (LP grammar has no lhs constant).',
+  technique='Lean 4 writer/spec-reader round-trip proof + byte-level differential correspondence; label tables regenerated from source'),
 }
 
 _PENDING = 'check under construction in this round; not yet claimed'
